@@ -473,4 +473,554 @@ theorem selLoop_tr (t : Tick) (ht : TickOK t) (hc : TickC t) :
           rw [ticked_cons]
           exact LoopPost.cons hpc (ih w1 done2 r2 w2 tr2 hw1 hg.2 hs.2 hk.2 hl)
 
+/-! ### entries -/
+
+theorem seqEntry_facts (st : Status) (m : Bool) (cur : Option Nat) (cs before rest : List Node) (trR : List Ev)
+    (hk : m = true → st = .running → cur.isSome = true)
+    (h : seqEntry st m cur cs = .ok (before, rest, trR)) :
+    idsL before ++ idsL rest = idsL cs ∧ NoYld trR ∧ (cs ≠ [] → rest ≠ []) ∧
+    (seqSelOnlyL cs = true → seqSelOnlyL before = true ∧ seqSelOnlyL rest = true) ∧
+    (curKeptL cs = true → curKeptL before = true ∧ curKeptL rest = true) := by
+  unfold seqEntry at h
+  split at h
+  · simp only [pure, Except.pure, Except.ok.injEq, Prod.mk.injEq] at h
+    obtain ⟨rfl, rfl, rfl⟩ := h
+    refine ⟨by simp [stopInvNonInvalid_idsL], stopInvNonInvalid_noYld cs, ?_,
+      fun hs => ⟨by simp [seqSelOnlyL], by rw [stopInvNonInvalid_ssoL]; exact hs⟩,
+      fun hc => ⟨by simp [curKeptL], stopInvNonInvalid_curKeptL cs hc⟩⟩
+    intro hne he
+    have := stopInvNonInvalid_ids cs; rw [he] at this
+    cases cs with
+    | nil => exact hne rfl
+    | cons c cs => simp at this
+  · rename_i hst
+    split at h
+    · rename_i hm
+      cases cur with
+      | none =>
+        have := hk hm (by simpa using hst)
+        simp at this
+      | some cid =>
+        simp only at h
+        split at h
+        · rename_i a b hsp
+          simp only [pure, Except.pure, Except.ok.injEq, Prod.mk.injEq] at h
+          obtain ⟨rfl, rfl, rfl⟩ := h
+          obtain ⟨e1, e2, c, rest', e3, e4⟩ := splitAtId_spec cid cs _ _ hsp
+          subst e3; subst e1
+          refine ⟨by simp, NoYld.nil, fun _ => by simp, ?_, ?_⟩
+          · intro hs; rw [ssoL_append, Bool.and_eq_true] at hs; exact hs
+          · intro hc; rw [curKeptL_append, Bool.and_eq_true] at hc; exact hc
+        · simp [throw, throwThe, MonadExceptOf.throw] at h
+    · simp only [pure, Except.pure, Except.ok.injEq, Prod.mk.injEq] at h
+      obtain ⟨rfl, rfl, rfl⟩ := h
+      exact ⟨by simp, NoYld.nil, fun hne => hne, fun hs => ⟨by simp [seqSelOnlyL], hs⟩,
+        fun hc => ⟨by simp [curKeptL], hc⟩⟩
+
+theorem selEntry_facts (st : Status) (m : Bool) (cur cur0 : Option Nat) (cs before rest : List Node) (trP : List Ev)
+    (h : selEntry st m cur cs = .ok (cur0, before, rest, trP)) :
+    idsL before ++ idsL rest = idsL cs ∧ NoYld trP ∧
+    (seqSelOnlyL cs = true → seqSelOnlyL before = true ∧ seqSelOnlyL rest = true) ∧
+    (curKeptL cs = true → curKeptL before = true ∧ curKeptL rest = true) := by
+  unfold selEntry at h
+  generalize (if st ≠ .running then cs.head?.map Node.id else cur) = c0 at h
+  simp only at h
+  split at h
+  · cases c0 with
+    | none =>
+      simp only [pure, Except.pure, Except.ok.injEq, Prod.mk.injEq] at h
+      obtain ⟨rfl, rfl, rfl, rfl⟩ := h
+      exact ⟨by simp, NoYld.nil, fun hs => ⟨by simp [seqSelOnlyL], hs⟩, fun hc => ⟨by simp [curKeptL], hc⟩⟩
+    | some cid =>
+      simp only at h
+      split at h
+      · rename_i a b hsp
+        simp only [pure, Except.pure, Except.ok.injEq, Prod.mk.injEq] at h
+        obtain ⟨rfl, rfl, rfl, rfl⟩ := h
+        obtain ⟨e1, e2, c, rest', e3, e4⟩ := splitAtId_spec cid cs _ _ hsp
+        subst e1
+        refine ⟨by simp [stopInvAll_idsL], stopInvAll_noYld a, ?_, ?_⟩
+        · intro hs; rw [ssoL_append, Bool.and_eq_true] at hs
+          exact ⟨by rw [stopInvAll_ssoL]; exact hs.1, hs.2⟩
+        · intro hc; rw [curKeptL_append, Bool.and_eq_true] at hc
+          exact ⟨stopInvAll_curKeptL a hc.1, hc.2⟩
+      · simp [throw, throwThe, MonadExceptOf.throw] at h
+  · simp only [pure, Except.pure, Except.ok.injEq, Prod.mk.injEq] at h
+    obtain ⟨rfl, rfl, rfl, rfl⟩ := h
+    exact ⟨by simp, NoYld.nil, fun hs => ⟨by simp [seqSelOnlyL], hs⟩, fun hc => ⟨by simp [curKeptL], hc⟩⟩
+
+/-! ### composing a composite's trace -/
+
+/-- the common argument for Sequence and Selector: the composite `n'` (id `i`, children `kids = before ++ tk ++ tail`)
+    was produced by a loop that ticked `tk`; its trace is `enter, reset events, child traces, kill events, yield`. -/
+theorem compose_core (i : Nat) (st : Status) (n' : Node) (kids before tk aft tail rest : List Node)
+    (trR trl trK : List Ev)
+    (hidn : ids n' = i :: idsL kids) (hid : n'.id = i) (hcl : childless n' = kids.isEmpty)
+    (hnodes : ∀ x ∈ kids, ∀ m ∈ nodes x, m ∈ nodes n') (hsib : (kids.map Node.id).Nodup)
+    (hkids : kids = before ++ tk ++ tail) (hpost : LoopPost rest tk aft trl) (htail : idsL tail = idsL aft)
+    (hR : NoYld trR) (hK : NoYld trK)
+    (hlast : ∃ l, tk.getLast? = some l ∧ tip n' = tipOf l.id kids) :
+    ids n' = i :: (idsL before ++ idsL rest) ∧
+    (∀ j s, Ev.yld j s ∈ [Ev.enter i] ++ trR ++ trl ++ trK ++ [Ev.yld i st] → j ∈ ids n') ∧
+    ((ids n').Nodup →
+      (yl (cl n') ([Ev.enter i] ++ trR ++ trl ++ trK ++ [Ev.yld i st])).getLast? = tip n') := by
+  have e1 : ids n' = i :: (idsL before ++ idsL rest) := by
+    rw [hidn, hkids]; simp [htail, ← hpost.hids, List.append_assoc]
+  obtain ⟨l, hl, htip⟩ := hlast
+  have hlk : l ∈ kids := by
+    rw [hkids]; simp [List.mem_of_getLast? hl]
+  refine ⟨e1, ?_, ?_⟩
+  · intro j s hj
+    simp only [List.mem_append, List.mem_singleton] at hj
+    rcases hj with (((hj | hj) | hj) | hj) | hj
+    · cases hj
+    · exact absurd hj (hR j s)
+    · obtain ⟨x, hx, hjx⟩ := hpost.hyld j s hj
+      rw [hidn]
+      exact List.mem_cons_of_mem _ (mem_idsL_of_mem kids x j (by rw [hkids]; simp [hx]) hjx)
+    · exact absurd hj (hK j s)
+    · cases hj; rw [hidn]; simp
+  · intro hnd
+    have hne : kids ≠ [] := fun e => by rw [e] at hlk; simp at hlk
+    have hroot : cl n' i = false := by
+      rw [← hid, cl_root n' hnd, hcl]; simpa using hne
+    have hndr : (idsL rest).Nodup := by
+      rw [e1] at hnd
+      exact (List.nodup_append.mp (List.nodup_cons.mp hnd).2).2.1
+    have hp : ∀ x ∈ tk, ∀ j ∈ ids x, cl n' j = cl x j := fun x hx j hj =>
+      cl_sub n' x (hnodes x (by rw [hkids]; simp [hx])) hnd j hj
+    have := hpost.hlast hndr (cl n') hp
+    simp only [yl_append, yl_of_noYld _ _ hR, yl_of_noYld _ _ hK, yl_enter, yl_nil, yl_yld, hroot,
+      List.nil_append, List.append_nil, Bool.false_eq_true, ↓reduceIte]
+    rw [this, hl, htip, tipOf_eq kids l hlk hsib]
+    rfl
+
+/-! ### Sequence / Selector "actual work" -/
+
+theorem seqRun_tr (t : Tick) (ht : TickOK t) (hc : TickC t) (w : Store) (i : Nat) (m : Bool) (before rest : List Node)
+    (trR : List Ev) (n' : Node) (w' : Store) (tr : List Ev) (hw : WOK w) (hr : GoodL rest)
+    (hsr : seqSelOnlyL rest = true) (hkr : curKeptL rest = true)
+    (hsb : seqSelOnlyL before = true) (hkb : curKeptL before = true) (hne : rest ≠ []) (hR : NoYld trR)
+    (hgood : Good n') (h : seqRun t w i m before rest trR = .ok (n', w', tr)) :
+    ids n' = i :: (idsL before ++ idsL rest) ∧ seqSelOnly n' = true ∧ curKept n' = true ∧
+    (∀ j s, Ev.yld j s ∈ tr → j ∈ ids n') ∧ ((ids n').Nodup → (yl (cl n') tr).getLast? = tip n') := by
+  simp only [seqRun, bind, Except.bind] at h
+  cases hl : seqLoop t w rest with
+  | error e => simp [hl] at h
+  | ok v =>
+    obtain ⟨done, r, w1, trl⟩ := v
+    simp only [hl] at h
+    have hpost := seqLoop_tr t ht hc rest w done r w1 trl hw hr hsr hkr hl
+    obtain ⟨hd, hdn, hds, hw1, hr'⟩ := seqLoop_spec t ht rest w done r w1 trl hw hr hl
+    cases r with
+    | none =>
+      simp only [pure, Except.pure, Except.ok.injEq, Prod.mk.injEq] at h
+      obtain ⟨rfl, rfl, rfl⟩ := h
+      simp only [ticked, after] at hpost
+      simp only at hr'
+      have hdne : done ≠ [] := by
+        intro e; subst e
+        cases rest with
+        | nil => exact hne rfl
+        | cons a b => simp at hr'
+      obtain ⟨hwf, _⟩ := hgood
+      simp only [wf, Bool.and_eq_true, decide_eq_true_eq] at hwf
+      have hsib := hwf.1.1.2
+      cases hgl : done.getLast? with
+      | none => simp at hgl; exact absurd hgl hdne
+      | some l =>
+        have hbl : (before ++ done).getLast? = some l := by rw [List.getLast?_append, hgl]; simp
+        have hcore := compose_core i .success (seq i m .success (lastId? (before ++ done)) (before ++ done))
+          (before ++ done) before done [] [] rest trR trl [] (by simp) rfl (by simp [childless])
+          (fun x hx m hm => by simp only [nodes, List.mem_cons]; exact Or.inr (mem_nodesL_of_mem _ x m hx hm)) hsib (by simp) hpost rfl hR NoYld.nil
+          ⟨l, hgl, by simp [tip, lastId?, hbl]⟩
+        simp only [List.append_nil] at hcore
+        exact ⟨hcore.1, by simp [seqSelOnly, ssoL_append, hsb, hpost.hsso],
+          by simp [curKept, curKeptL_append, hkb, hpost.hkept], hcore.2.1, hcore.2.2⟩
+    | some p =>
+      obtain ⟨c', untouched⟩ := p
+      obtain ⟨hc1, hc2, hc3, hidsm, pre, hpre, hlen⟩ := hr'
+      simp only [ticked, after] at hpost
+      have hsu : seqSelOnlyL untouched = true := by
+        rw [hpre, ssoL_append, Bool.and_eq_true] at hsr; exact hsr.2
+      have hku : curKeptL untouched = true := by
+        rw [hpre, curKeptL_append, Bool.and_eq_true] at hkr; exact hkr.2
+      have hT : idsL (if m = true then (untouched, []) else stopInvNonInvalid untouched).1 = idsL untouched ∧
+          seqSelOnlyL (if m = true then (untouched, []) else stopInvNonInvalid untouched).1 = true ∧
+          curKeptL (if m = true then (untouched, []) else stopInvNonInvalid untouched).1 = true ∧
+          NoYld (if m = true then (untouched, []) else stopInvNonInvalid untouched).2 := by
+        by_cases hmm : m = true
+        · simp only [hmm, ↓reduceIte]; exact ⟨trivial, hsu, hku, NoYld.nil⟩
+        · simp only [hmm, Bool.false_eq_true, ↓reduceIte]
+          exact ⟨stopInvNonInvalid_idsL untouched, by rw [stopInvNonInvalid_ssoL]; exact hsu,
+            stopInvNonInvalid_curKeptL untouched hku, stopInvNonInvalid_noYld untouched⟩
+      simp only at h
+      generalize (if m = true then (untouched, []) else stopInvNonInvalid untouched) = T at h hT
+      obtain ⟨T1, T2⟩ := T
+      obtain ⟨hT1, hT2, hT3, hT4⟩ := hT
+      simp only [pure, Except.pure, Except.ok.injEq, Prod.mk.injEq] at h
+      obtain ⟨rfl, rfl, rfl⟩ := h
+      obtain ⟨hwf, _⟩ := hgood
+      simp only [wf, Bool.and_eq_true, decide_eq_true_eq] at hwf
+      have hsib := hwf.1.1.2
+      have hcore := compose_core i c'.status (seq i m c'.status (some c'.id) (before ++ done ++ c' :: T1))
+        (before ++ done ++ c' :: T1) before (done ++ [c']) untouched T1 rest trR trl T2 (by simp) rfl
+        (by simp [childless]) (fun x hx m hm => by simp only [nodes, List.mem_cons]; exact Or.inr (mem_nodesL_of_mem _ x m hx hm)) hsib (by simp)
+        hpost hT1 hR hT4 ⟨c', by simp, by simp [tip]⟩
+      have hs' := hpost.hsso; rw [ssoL_append, Bool.and_eq_true] at hs'
+      have hk' := hpost.hkept; rw [curKeptL_append, Bool.and_eq_true] at hk'
+      simp only [seqSelOnlyL, curKeptL, Bool.and_true] at hs' hk'
+      exact ⟨hcore.1, by simp [seqSelOnly, ssoL_append, seqSelOnlyL, hsb, hs'.1, hs'.2, hT2],
+        by simp [curKept, curKeptL_append, curKeptL, hkb, hk'.1, hk'.2, hT3], hcore.2.1, hcore.2.2⟩
+
+theorem selRun_tr (t : Tick) (ht : TickOK t) (hc : TickC t) (w : Store) (i : Nat) (m : Bool) (cur0 : Option Nat)
+    (before rest : List Node)
+    (trR : List Ev) (n' : Node) (w' : Store) (tr : List Ev) (hw : WOK w) (hr : GoodL rest)
+    (hsr : seqSelOnlyL rest = true) (hkr : curKeptL rest = true)
+    (hsb : seqSelOnlyL before = true) (hkb : curKeptL before = true) (hne : rest ≠ []) (hR : NoYld trR)
+    (hgood : Good n') (h : selRun t w i m cur0 before rest trR = .ok (n', w', tr)) :
+    ids n' = i :: (idsL before ++ idsL rest) ∧ seqSelOnly n' = true ∧ curKept n' = true ∧
+    (∀ j s, Ev.yld j s ∈ tr → j ∈ ids n') ∧ ((ids n').Nodup → (yl (cl n') tr).getLast? = tip n') := by
+  simp only [selRun, bind, Except.bind] at h
+  cases hl : selLoop t w rest with
+  | error e => simp [hl] at h
+  | ok v =>
+    obtain ⟨done, r, w1, trl⟩ := v
+    simp only [hl] at h
+    have hpost := selLoop_tr t ht hc rest w done r w1 trl hw hr hsr hkr hl
+    obtain ⟨hd, hdn, hds, hw1, hr'⟩ := selLoop_spec t ht rest w done r w1 trl hw hr hl
+    cases r with
+    | none =>
+      simp only [pure, Except.pure, Except.ok.injEq, Prod.mk.injEq] at h
+      obtain ⟨rfl, rfl, rfl⟩ := h
+      simp only [ticked, after] at hpost
+      simp only at hr'
+      have hdne : done ≠ [] := by
+        intro e; subst e
+        cases rest with
+        | nil => exact hne rfl
+        | cons a b => simp at hr'
+      obtain ⟨hwf, _⟩ := hgood
+      simp only [wf, Bool.and_eq_true, decide_eq_true_eq] at hwf
+      have hsib := hwf.1.1.2
+      cases hgl : done.getLast? with
+      | none => simp at hgl; exact absurd hgl hdne
+      | some l =>
+        have hbl : (before ++ done).getLast? = some l := by rw [List.getLast?_append, hgl]; simp
+        have hcore := compose_core i .failure (sel i m .failure (lastId? (before ++ done)) (before ++ done))
+          (before ++ done) before done [] [] rest trR trl [] (by simp) rfl (by simp [childless])
+          (fun x hx m hm => by simp only [nodes, List.mem_cons]; exact Or.inr (mem_nodesL_of_mem _ x m hx hm)) hsib (by simp) hpost rfl hR NoYld.nil
+          ⟨l, hgl, by simp [tip, lastId?, hbl]⟩
+        simp only [List.append_nil] at hcore
+        exact ⟨hcore.1, by simp [seqSelOnly, ssoL_append, hsb, hpost.hsso],
+          by simp [curKept, curKeptL_append, hkb, hpost.hkept], hcore.2.1, hcore.2.2⟩
+    | some p =>
+      obtain ⟨c', untouched⟩ := p
+      obtain ⟨hc1, hc2, hidsm, pre, hpre, hlen⟩ := hr'
+      simp only [ticked, after] at hpost
+      have hsu : seqSelOnlyL untouched = true := by
+        rw [hpre, ssoL_append, Bool.and_eq_true] at hsr; exact hsr.2
+      have hku : curKeptL untouched = true := by
+        rw [hpre, curKeptL_append, Bool.and_eq_true] at hkr; exact hkr.2
+      have hT : idsL (if cur0 = some c'.id then (untouched, []) else stopInvNonInvalid untouched).1 = idsL untouched ∧
+          seqSelOnlyL (if cur0 = some c'.id then (untouched, []) else stopInvNonInvalid untouched).1 = true ∧
+          curKeptL (if cur0 = some c'.id then (untouched, []) else stopInvNonInvalid untouched).1 = true ∧
+          NoYld (if cur0 = some c'.id then (untouched, []) else stopInvNonInvalid untouched).2 := by
+        by_cases hmm : cur0 = some c'.id
+        · simp only [hmm, ↓reduceIte]; exact ⟨trivial, hsu, hku, NoYld.nil⟩
+        · simp only [hmm, ↓reduceIte]
+          exact ⟨stopInvNonInvalid_idsL untouched, by rw [stopInvNonInvalid_ssoL]; exact hsu,
+            stopInvNonInvalid_curKeptL untouched hku, stopInvNonInvalid_noYld untouched⟩
+      simp only at h
+      generalize (if cur0 = some c'.id then (untouched, []) else stopInvNonInvalid untouched) = T at h hT
+      obtain ⟨T1, T2⟩ := T
+      obtain ⟨hT1, hT2, hT3, hT4⟩ := hT
+      simp only [pure, Except.pure, Except.ok.injEq, Prod.mk.injEq] at h
+      obtain ⟨rfl, rfl, rfl⟩ := h
+      obtain ⟨hwf, _⟩ := hgood
+      simp only [wf, Bool.and_eq_true, decide_eq_true_eq] at hwf
+      have hsib := hwf.1.1.2
+      have hcore := compose_core i c'.status (sel i m c'.status (some c'.id) (before ++ done ++ c' :: T1))
+        (before ++ done ++ c' :: T1) before (done ++ [c']) untouched T1 rest trR trl T2 (by simp) rfl
+        (by simp [childless]) (fun x hx m hm => by simp only [nodes, List.mem_cons]; exact Or.inr (mem_nodesL_of_mem _ x m hx hm)) hsib (by simp)
+        hpost hT1 hR hT4 ⟨c', by simp, by simp [tip]⟩
+      have hs' := hpost.hsso; rw [ssoL_append, Bool.and_eq_true] at hs'
+      have hk' := hpost.hkept; rw [curKeptL_append, Bool.and_eq_true] at hk'
+      simp only [seqSelOnlyL, curKeptL, Bool.and_true] at hs' hk'
+      exact ⟨hcore.1, by simp [seqSelOnly, ssoL_append, seqSelOnlyL, hsb, hs'.1, hs'.2, hT2],
+        by simp [curKept, curKeptL_append, curKeptL, hkb, hk'.1, hk'.2, hT3], hcore.2.1, hcore.2.2⟩
+
+/-! ### the tick -/
+
+theorem tickF_C (e : Env) (he : ValidEnv e) : ∀ f : Nat, TickC (tickF f e) := by
+  intro f
+  induction f with
+  | zero => intro w c c' w' tr _ _ _ _ h; simp [tickF] at h
+  | succ f ih =>
+    have ht : TickOK (tickF f e) := fun w c c' w' tr hw hg h => tickF_good e he f w c c' w' tr hw hg h
+    intro w n n' w' tr hw hg hs hk h
+    obtain ⟨hgood', hlive', _, _⟩ := tickF_good e he (f+1) w n n' w' tr hw hg h
+    cases n with
+    | leaf i st k log =>
+      simp only [tickF, leafTick, bind, Except.bind] at h
+      generalize (if st ≠ .running then leafInit e k else k) = k0 at h
+      cases hu : leafUpdate i e w k0 with
+      | error err => simp [hu] at h
+      | ok v =>
+        obtain ⟨k1, o, w1⟩ := v
+        simp only [hu, pure, Except.pure, Except.ok.injEq, Prod.mk.injEq] at h
+        obtain ⟨rfl, rfl, rfl⟩ := h
+        have ho : o ≠ .invalid := by simpa [status] using hlive'
+        have hcl : ∀ o' k' l, cl (leaf i o' k' l) i = true := by intro o' k' l; simp [cl, nodes, childless, Node.id]
+        refine { hids := by simp, hsso := by simp [seqSelOnly], hkept := by simp [curKept], hgood := hgood',
+                 hlive := hlive', hyld := ?_, hlast := ?_ }
+        · intro j s hj
+          by_cases h1 : st = .running <;> by_cases h2 : o = .running <;> simp [h1, h2] at hj <;> simp [hj]
+        · intro _
+          by_cases h1 : st = .running <;> by_cases h2 : o = .running <;> simp [h1, h2, yl_yld, hcl, tip, ho]
+    | seq i m st cur cs =>
+      obtain ⟨hwf, hlo⟩ := hg
+      simp only [wf, Bool.and_eq_true, decide_eq_true_eq, Bool.or_eq_true, beq_iff_eq] at hwf
+      obtain ⟨⟨⟨⟨⟨hwl, hrun⟩, hoc⟩, hnd⟩, _⟩, _⟩ := hwf
+      simp only [leavesOK] at hlo
+      simp only [seqSelOnly] at hs
+      simp only [curKept, Bool.and_eq_true] at hk
+      have hk1 : m = true → st = .running → cur.isSome = true := by
+        intro hm hst; subst hm; subst hst; simpa using hk.1
+      simp only [tickF, bind, Except.bind] at h
+      cases hen : seqEntry st m cur cs with
+      | error err => simp [hen] at h
+      | ok v =>
+        obtain ⟨before, rest, trR⟩ := v
+        simp only [hen] at h
+        obtain ⟨f1, f2, f3, f4, f5⟩ := seqEntry_facts st m cur cs before rest trR hk1 hen
+        by_cases hemp : cs = []
+        · subst hemp
+          simp only [List.isEmpty_nil, ↓reduceIte, pure, Except.pure, Except.ok.injEq, Prod.mk.injEq] at h
+          obtain ⟨rfl, rfl, rfl⟩ := h
+          have hcl : cl (seq i m .success none []) i = true := by simp [cl, nodes, nodesL, childless, Node.id]
+          refine { hids := by simp, hsso := by simp [seqSelOnly, seqSelOnlyL], hkept := by simp [curKept, curKeptL],
+                   hgood := hgood', hlive := hlive', hyld := ?_, hlast := ?_ }
+          · intro j s hj
+            simp only [List.mem_append, List.mem_singleton] at hj
+            rcases hj with (hj | hj) | hj
+            · cases hj
+            · exact absurd hj (f2 j s)
+            · cases hj; simp
+          · intro _
+            simp [yl_of_noYld _ _ f2, yl_yld, hcl, tip]
+        · have hie : cs.isEmpty = false := by simpa using hemp
+          simp only [hie, Bool.false_eq_true, ↓reduceIte] at h
+          obtain ⟨s1, s2, s3, s4, s5, s6⟩ :=
+            seqEntry_spec st m cur cs before rest trR ⟨hwl, hlo⟩ hrun hoc hnd hemp hen
+          obtain ⟨r1, r2, r3, r4, r5⟩ := seqRun_tr (tickF f e) ht ih w i m before rest trR n' w' tr hw s3
+            (f4 hs).2 (f5 hk.2).2 (f4 hs).1 (f5 hk.2).1 (f3 hemp) f2 hgood' h
+          have hids : ids n' = ids (seq i m st cur cs) := by rw [r1, f1]; simp
+          exact { hids := hids, hsso := r2, hkept := r3, hgood := hgood', hlive := hlive', hyld := r4,
+                  hlast := fun hnd' => r5 (by rw [hids]; exact hnd') }
+    | sel i m st cur cs =>
+      obtain ⟨hwf, hlo⟩ := hg
+      simp only [wf, Bool.and_eq_true, decide_eq_true_eq, Bool.or_eq_true, beq_iff_eq] at hwf
+      obtain ⟨⟨⟨⟨⟨hwl, hrun⟩, hoc⟩, hnd⟩, _⟩, _⟩ := hwf
+      simp only [leavesOK] at hlo
+      simp only [seqSelOnly] at hs
+      simp only [curKept] at hk
+      simp only [tickF, bind, Except.bind] at h
+      by_cases hemp : cs = []
+      · subst hemp
+        simp only [List.isEmpty_nil, ↓reduceIte, pure, Except.pure, Except.ok.injEq, Prod.mk.injEq] at h
+        obtain ⟨rfl, rfl, rfl⟩ := h
+        have hcl : cl (sel i m .failure none []) i = true := by simp [cl, nodes, nodesL, childless, Node.id]
+        refine { hids := by simp, hsso := by simp [seqSelOnly, seqSelOnlyL], hkept := by simp [curKept, curKeptL],
+                 hgood := hgood', hlive := hlive', hyld := ?_, hlast := ?_ }
+        · intro j s hj
+          simp only [List.mem_cons, List.mem_singleton] at hj
+          rcases hj with hj | hj | hj
+          · cases hj
+          · cases hj; simp
+          · simp at hj
+        · intro _
+          simp [yl_yld, hcl, tip]
+      · have hie : cs.isEmpty = false := by simpa using hemp
+        simp only [hie, Bool.false_eq_true, ↓reduceIte] at h
+        cases hen : selEntry st m cur cs with
+        | error err => simp [hen] at h
+        | ok v =>
+          obtain ⟨cur0, before, rest, trP⟩ := v
+          simp only [hen] at h
+          obtain ⟨f1, f2, f4, f5⟩ := selEntry_facts st m cur cur0 cs before rest trP hen
+          obtain ⟨s1, s2, s3, s4, s5, s6⟩ := selEntry_spec st m cur cur0 cs before rest trP ⟨hwl, hlo⟩ hrun hoc hemp hen
+          obtain ⟨r1, r2, r3, r4, r5⟩ := selRun_tr (tickF f e) ht ih w i m cur0 before rest trP n' w' tr hw s3
+            (f4 hs).2 (f5 hk).2 (f4 hs).1 (f5 hk).1 s6 f2 hgood' h
+          have hids : ids n' = ids (sel i m st cur cs) := by rw [r1, f1]; simp
+          exact { hids := hids, hsso := r2, hkept := r3, hgood := hgood', hlive := hlive', hyld := r4,
+                  hlast := fun hnd' => r5 (by rw [hids]; exact hnd') }
+    | par i p st cur cs => simp [seqSelOnly] at hs
+    | dec i k st c => simp [seqSelOnly] at hs
+
+/-! ### histories: every state reached by ticks / interrupts / blackboard writes keeps the hypotheses -/
+
+mutual
+theorem fresh_curKept : ∀ n : Node, isFresh n = true → curKept n = true
+| leaf _ _ _ _, _ => by simp [curKept]
+| seq _ _ s cur cs, h => by
+    simp only [isFresh, Bool.and_eq_true, beq_iff_eq] at h
+    obtain ⟨⟨⟨rfl, _⟩, hf⟩, _⟩ := h
+    simp [curKept, freshL_curKeptL cs hf]
+| sel _ _ s cur cs, h => by
+    simp only [isFresh, Bool.and_eq_true] at h
+    simp [curKept, freshL_curKeptL cs h.1.2]
+| par _ _ s cur cs, h => by
+    simp only [isFresh, Bool.and_eq_true] at h
+    simp [curKept, freshL_curKeptL cs h.1.2]
+| dec _ k s c, h => by
+    simp only [isFresh, Bool.and_eq_true] at h
+    simp [curKept, fresh_curKept c h.2]
+theorem freshL_curKeptL : ∀ cs : List Node, isFreshL cs = true → curKeptL cs = true
+| [], _ => by simp [curKeptL]
+| c :: cs, h => by
+    simp only [isFreshL, Bool.and_eq_true] at h
+    simp [curKeptL, fresh_curKept c h.1, freshL_curKeptL cs h.2]
+end
+
+theorem run_inv : ∀ (ops : List Op) (n : Node) (w : Store) (n' : Node) (w' : Store),
+    (∀ op ∈ ops, ValidOp op) → Good n → WOK w → seqSelOnly n = true → curKept n = true →
+    run ops n w = .ok (n', w') →
+    Good n' ∧ WOK w' ∧ seqSelOnly n' = true ∧ curKept n' = true ∧ ids n' = ids n
+| [], n, w, n', w', _, hg, hw, hs, hk, h => by
+    simp only [run, Except.ok.injEq, Prod.mk.injEq] at h; obtain ⟨rfl, rfl⟩ := h
+    exact ⟨hg, hw, hs, hk, rfl⟩
+| op :: ops, n, w, n', w', hops, hg, hw, hs, hk, h => by
+    simp only [run] at h
+    cases hst : step n w op with
+    | error e => simp [hst] at h
+    | ok v =>
+      obtain ⟨n1, w1, tr⟩ := v
+      simp only [hst] at h
+      obtain ⟨g1, w1ok, _⟩ := step_good n w op n1 w1 tr (hops op (by simp)) hg hw hst
+      have h1 : seqSelOnly n1 = true ∧ curKept n1 = true ∧ ids n1 = ids n := by
+        cases op with
+        | tick e =>
+          simp only [step, tick] at hst
+          have hv : ValidEnv e := hops (.tick e) (by simp)
+          have hpc := tickF_C e hv _ w n n1 w1 tr hw hg hs hk hst
+          exact ⟨hpc.hsso, hpc.hkept, hpc.hids⟩
+        | stop =>
+          simp only [step, Except.ok.injEq, Prod.mk.injEq] at hst
+          obtain ⟨rfl, rfl, _⟩ := hst
+          exact ⟨by rw [stopInv_sso]; exact hs, stopInv_curKept n hk, stopInv_ids n⟩
+        | poke k v =>
+          cases v with
+          | some v =>
+            simp only [step, Except.ok.injEq, Prod.mk.injEq] at hst
+            obtain ⟨rfl, rfl, _⟩ := hst
+            exact ⟨hs, hk, rfl⟩
+          | none =>
+            simp only [step, Except.ok.injEq, Prod.mk.injEq] at hst
+            obtain ⟨rfl, rfl, _⟩ := hst
+            exact ⟨hs, hk, rfl⟩
+      obtain ⟨a, b, c, d, e⟩ := run_inv ops n1 w1 n' w' (fun o ho => hops o (by simp [ho])) g1 w1ok h1.1 h1.2.1 h
+      exact ⟨a, b, c, d, by rw [e, h1.2.2]⟩
+
 end C19b
+
+/-! ## the property -/
+
+/-
+  FULL STATEMENT AS REQUESTED — it is FALSE (see `C19_last_leaf_counterexample` below):
+
+  theorem C19_last_leaf (e : Env) (he : ValidEnv e) (f : Nat) (w : Store) (n n' : Node) (w' : Store) (tr : List Ev)
+      (hs : seqSelOnly n = true) (hg : Good n) (hw : WOK w) (hd : ((nodes n).map Node.id).Nodup)
+      (h : tickF f e w n = .ok (n', w', tr)) : tip n' = lastChildlessYield n' tr
+
+  `Good` allows the state "RUNNING memory Sequence whose current child has been removed" (`cur = none`, produced
+  only by the edit operations of C13).  If every remaining child of such a sequence is SUCCESS, the tick ticks NO
+  child, completes with SUCCESS and points `current_child` at the last (stale) child; tip() is then a leaf that was
+  not ticked in this tick, and the trace contains no childless yield at all.
+  The theorem below adds the hypothesis `C19b.curKept n` (every RUNNING memory sequence still remembers a current
+  child); `C19_last_leaf_reachable` shows that every state reached from a fresh tree by ticks, interrupts and
+  blackboard writes satisfies it.
+-/
+
+/-- **C19 (last clause)**, with the extra hypothesis `curKept`: in a tree of sequences / selectors over leaves with
+    pairwise distinct ids, after a tick tip() is the last childless behaviour that yielded during that tick. -/
+theorem C19_last_leaf_partial (e : Env) (he : ValidEnv e) (f : Nat) (w : Store) (n n' : Node) (w' : Store)
+    (tr : List Ev) (hs : seqSelOnly n = true) (hg : Good n) (hw : WOK w) (hd : ((nodes n).map Node.id).Nodup)
+    (hk : C19b.curKept n = true)
+    (h : tickF f e w n = .ok (n', w', tr)) : tip n' = lastChildlessYield n' tr := by
+  have hpc := C19b.tickF_C e he f w n n' w' tr hw hg hs hk h
+  rw [C19b.lastChildlessYield_eq]
+  exact (hpc.hlast hd).symm
+
+/-- the requested statement fails on a `Good` state (a RUNNING memory sequence that lost its current child) -/
+theorem C19_last_leaf_counterexample :
+    ∃ (e : Env) (f : Nat) (w : Store) (n n' : Node) (w' : Store) (tr : List Ev),
+      ValidEnv e ∧ seqSelOnly n = true ∧ Good n ∧ WOK w ∧ ((nodes n).map Node.id).Nodup ∧
+      tickF f e w n = .ok (n', w', tr) ∧ tip n' ≠ lastChildlessYield n' tr :=
+  ⟨{ outcome := fun _ => .success, guard := fun _ => true, now := 0 }, 2, Store.empty,
+   .seq 1 true .running none [.leaf 2 .success (.const .success) [.init, .upd .success, .term .success]],
+   .seq 1 true .success (some 2) [.leaf 2 .success (.const .success) [.init, .upd .success, .term .success]],
+   Store.empty, [.enter 1, .yld 1 .success],
+   fun _ => by simp, by decide, ⟨by decide, by decide⟩, WOK_empty, by decide, rfl, by decide⟩
+
+/-- the tick keeps the shape class, the ids (in pre-order) and the extra hypothesis -/
+theorem C19_tick_seqSelOnly (e : Env) (he : ValidEnv e) (f : Nat) (w : Store) (n n' : Node) (w' : Store)
+    (tr : List Ev) (hs : seqSelOnly n = true) (hg : Good n) (hw : WOK w) (hk : C19b.curKept n = true)
+    (h : tickF f e w n = .ok (n', w', tr)) :
+    seqSelOnly n' = true ∧ C19b.curKept n' = true ∧ (nodes n').map Node.id = (nodes n).map Node.id := by
+  have hpc := C19b.tickF_C e he f w n n' w' tr hw hg hs hk h
+  exact ⟨hpc.hsso, hpc.hkept, hpc.hids⟩
+
+/-- every tick of such a tree yields at least one childless behaviour, and every yield is a node of the tree -/
+theorem C19_some_childless_yield (e : Env) (he : ValidEnv e) (f : Nat) (w : Store) (n n' : Node) (w' : Store)
+    (tr : List Ev) (hs : seqSelOnly n = true) (hg : Good n) (hw : WOK w) (hd : ((nodes n).map Node.id).Nodup)
+    (hk : C19b.curKept n = true) (h : tickF f e w n = .ok (n', w', tr)) :
+    (lastChildlessYield n' tr).isSome = true ∧ ∀ i s, Ev.yld i s ∈ tr → ∃ m ∈ nodes n', m.id = i := by
+  have hpc := C19b.tickF_C e he f w n n' w' tr hw hg hs hk h
+  refine ⟨?_, ?_⟩
+  · rw [← C19_last_leaf_partial e he f w n n' w' tr hs hg hw hd hk h]
+    obtain ⟨t, ht⟩ := C19b.tip_some_of_live hpc.hgood hpc.hlive
+    simp [ht]
+  · intro i s hi
+    have := hpc.hyld i s hi
+    simpa [C19b.ids, List.mem_map] using this
+
+/-- **C19 (last clause) for reachable states**: start from a freshly constructed tree of sequences / selectors over
+    leaves with pairwise distinct ids, apply any history of ticks, root interrupts and blackboard writes, then tick:
+    tip() is the last childless behaviour that yielded during that tick. -/
+theorem C19_last_leaf_reachable (ops : List Op) (n0 n : Node) (w : Store) (hf : isFresh n0 = true)
+    (hs : seqSelOnly n0 = true) (hd : ((nodes n0).map Node.id).Nodup)
+    (hops : ∀ op ∈ ops, ValidOp op) (hrun : run ops n0 Store.empty = .ok (n, w))
+    (e : Env) (he : ValidEnv e) (n' : Node) (w' : Store) (tr : List Ev)
+    (h : tick e w n = .ok (n', w', tr)) : tip n' = lastChildlessYield n' tr := by
+  obtain ⟨hg, hw, hs', hk, hids⟩ := C19b.run_inv ops n0 Store.empty n w hops (fresh_good n0 hf) WOK_empty hs
+    (C19b.fresh_curKept n0 hf) hrun
+  have hd' : ((nodes n).map Node.id).Nodup := by
+    have : (nodes n).map Node.id = (nodes n0).map Node.id := hids
+    rw [this]; exact hd
+  exact C19_last_leaf_partial e he _ w n n' w' tr hs' hg hw hd' hk h
+
+/-! non-vacuity: a selector over a memory sequence and a leaf -/
+def C19b_example : Node :=
+  .sel 1 false .invalid none
+    [.seq 2 true .invalid none [.leaf 3 .invalid .probe [], .leaf 4 .invalid .probe []],
+     .leaf 5 .invalid .probe []]
+def C19b_env (o3 o4 o5 : Status) : Env :=
+  { outcome := fun i => if i = 3 then o3 else if i = 4 then o4 else o5, guard := fun _ => true, now := 0 }
+example : isFresh C19b_example = true := by decide
+example : seqSelOnly C19b_example = true := by decide
+example : C19b.curKept C19b_example = true := by decide
+example : ((nodes C19b_example).map Node.id).Nodup := by decide
+/-- leaf 3 succeeds, leaf 4 keeps running: the tip is leaf 4, the last leaf ticked -/
+example : (tick (C19b_env .success .running .failure) Store.empty C19b_example).toOption.map
+    (fun r => (tip r.1, lastChildlessYield r.1 r.2.2)) = some (some 4, some 4) := by decide
+/-- leaf 3 fails: the sequence fails, the selector falls through to leaf 5 -/
+example : (tick (C19b_env .failure .running .success) Store.empty C19b_example).toOption.map
+    (fun r => (tip r.1, lastChildlessYield r.1 r.2.2)) = some (some 5, some 5) := by decide
+/-- second tick: the memory sequence resumes at leaf 4 (leaf 3 is not ticked again), which now fails -/
+example : ((tick (C19b_env .success .running .failure) Store.empty C19b_example).toOption.bind
+    (fun r => (tick (C19b_env .success .failure .running) r.2.1 r.1).toOption)).map
+    (fun r => (tip r.1, lastChildlessYield r.1 r.2.2, r.2.2.any (fun ev => ev == .enter 3))) = some (some 5, some 5, false) := by decide
+/-- an empty composite is childless: it is its own tip -/
+example : (tick (C19b_env .success .success .success) Store.empty (.seq 7 false .invalid none [])).toOption.map
+    (fun r => (tip r.1, lastChildlessYield r.1 r.2.2)) = some (some 7, some 7) := by decide
